@@ -637,7 +637,15 @@ func (x *fx) evalCall(e *Expr, env *specEnv) *Val {
 			return &Val{T: tInt, S: x.refAsIdx(x.refOf(v))}
 		case "fresh":
 			// fresh(x): x was allocated by this activation (not reachable from the caller's state)
+			// In a callee's postcondition assumed at a call site it is the callee's
+			// activation: allocated during that call (at or above the allocation
+			// pointer before the call, below it afterwards), so that two results
+			// of two calls are known to be different objects.
 			v := x.eval(args[0], env)
+			if env.callSite && env.old != nil && env.old.top != "" && env.top != "" {
+				r := x.refOf(v)
+				return &Val{T: tBool, S: "(and (>= " + r + " " + env.old.top + ") (< " + r + " " + env.top + "))"}
+			}
 			return &Val{T: tBool, S: "(>= " + x.refOf(v) + " " + x.top0 + ")"}
 		case "cell":
 			// cell(v): the address of the memory cell of the source variable v (a
